@@ -4,6 +4,7 @@ CONSTANTS
   MaxT = 3
   MaxC = 2
   Mode = "Handled"
+  QueueOrder = "fifo"
   Configs <- QuickConfigs
 INVARIANT TypeOK
 INVARIANT Positions
